@@ -9,6 +9,9 @@ import (
 	"sync"
 	"sync/atomic"
 
+	"github.com/pokt-network/posmint/store/rootmulti"
+	stypes "github.com/pokt-network/posmint/store/types"
+
 	"verif/internal/crashdb"
 	"verif/internal/ev"
 )
@@ -44,6 +47,38 @@ func runC12(h rmHist) (res *c12result, opens int64, loads int64) {
 			rmApplyChoice(s.kv(i), models[i], c)
 		}
 		s.rs.GetKVStore(s.tkey).Set([]byte("tmp"), []byte{byte(v)})
+		// historical reads while the writes of version v are pending, the way the application makes
+		// them (Context.PrevCtx, custom queries): a copy of the multistore loaded at an older version.
+		// Retained versions must read as committed; the pending writes must not be disturbed (the
+		// content checks after the Commit below decide that). Version 0 on a copy is loaded but its
+		// content is not judged.
+		for u := int64(0); u < v; u++ {
+			if u > 0 && !rmRetained(u, v-1, h.Pruning) {
+				continue
+			}
+			loads++
+			cp := (*s.rs.CopyStore()).(*rootmulti.Store)
+			var lerr error
+			func() {
+				defer func() {
+					if r := recover(); r != nil {
+						lerr = fmt.Errorf("panic: %v", r)
+					}
+				}()
+				lerr = cp.LoadVersion(u)
+			}()
+			if u == 0 {
+				continue
+			}
+			if lerr != nil {
+				return fail("retained-version-unreadable-on-copy", "while version %d is being written, LoadVersion(%d) on a copy of the multistore failed: %v", v, u, lerr)
+			}
+			for i := 0; i < h.N; i++ {
+				if got, want := dumpStore(cp.GetKVStore(s.keys[i])), snaps[u][i].iterate(nil, nil, true); !pairsEqual(got, want) {
+					return fail("copy-loaded-content", "while version %d is being written, a copy loaded at %d shows store %s = [%s], committed at %d [%s]", v, u, rmName(i), pairsString(got), u, pairsString(want))
+				}
+			}
+		}
 		cid := s.rs.Commit()
 		if cid.Version != v {
 			return fail("commit-version", "commit %d returned version %d", v, cid.Version)
@@ -154,7 +189,75 @@ func runC12(h rmHist) (res *c12result, opens int64, loads int64) {
 			return fail("reopen-commit-id-after-failed-load", "reopened store reports %d/%X, last commit was %d/%X", lc.Version, lc.Hash, v+1, cid.Hash)
 		}
 	}
+	// the operator changes node-local settings across a restart (another pruning option, lazy
+	// loading): the reopened store reports the same commit id and content, and its next Commit is
+	// version latest+1 with the content written, which a further reopen reports too
+	final := s.rs.LastCommitID()
+	if final.Version >= 1 {
+		base := db.Snapshot()
+		for _, p2 := range rmPrunings {
+			for _, lazy := range []bool{false, true} {
+				if p2 == h.Pruning && !lazy {
+					continue
+				}
+				opens++
+				db2 := crashdb.FromSnapshot(base, nil)
+				s6, err := rmOpenLazy(db2, h.N, p2, -1, lazy)
+				if err != nil {
+					return fail("reopen-with-other-settings", "reopen with pruning (%d,%d) lazy=%v fails: %v", p2[0], p2[1], lazy, err)
+				}
+				if lc := s6.rs.LastCommitID(); lc.Version != final.Version || !bytes.Equal(lc.Hash, final.Hash) {
+					return fail("reopen-with-other-settings-commit-id", "reopened with pruning (%d,%d) lazy=%v reports %d/%X, last commit was %d/%X", p2[0], p2[1], lazy, lc.Version, lc.Hash, final.Version, final.Hash)
+				}
+				m := models[0].clone()
+				rmApplyChoice(s6.kv(0), m, 2)
+				var cid stypes.CommitID
+				var cerr interface{}
+				func() {
+					defer func() { cerr = recover() }()
+					cid = s6.rs.Commit()
+				}()
+				if cerr != nil || cid.Version != final.Version+1 {
+					return fail("commit-after-reopen-with-other-settings", "after reopening with pruning (%d,%d) lazy=%v (the store ran with (%d,%d)) the next Commit returned version %d / panic %v, expected version %d", p2[0], p2[1], lazy, h.Pruning[0], h.Pruning[1], cid.Version, cerr, final.Version+1)
+				}
+				opens++
+				s7, err := rmOpenLazy(crashdb.FromSnapshot(db2.Snapshot(), nil), h.N, p2, -1, lazy)
+				if err != nil {
+					return fail("reopen-after-commit-with-other-settings", "second reopen with pruning (%d,%d) lazy=%v fails: %v", p2[0], p2[1], lazy, err)
+				}
+				if lc := s7.rs.LastCommitID(); lc.Version != cid.Version || !bytes.Equal(lc.Hash, cid.Hash) {
+					return fail("reopen-with-other-settings-commit-id", "second reopen reports %d/%X, commit returned %d/%X", lc.Version, lc.Hash, cid.Version, cid.Hash)
+				}
+				if got, want := s7.content(0), m.iterate(nil, nil, true); !pairsEqual(got, want) {
+					return fail("reopen-with-other-settings-content", "after reopening with pruning (%d,%d) lazy=%v and one commit store %s holds [%s], written [%s]", p2[0], p2[1], lazy, rmName(0), pairsString(got), pairsString(want))
+				}
+			}
+		}
+	}
 	return nil, opens, loads
+}
+
+// c12nontrivial: some choice changes the content of its store (choice 0 = nothing; a delete of an
+// absent key or a repeated identical write changes nothing).
+func c12nontrivial(ch [][]int) bool {
+	if len(ch) == 0 {
+		return false
+	}
+	ms := make([]kvMap, len(ch[0]))
+	for i := range ms {
+		ms[i] = kvMap{}
+	}
+	changes := 0
+	for _, cs := range ch {
+		for i, c := range cs {
+			before := pairsString(ms[i].iterate(nil, nil, true))
+			rmApplyChoice(nil, ms[i], c)
+			if pairsString(ms[i].iterate(nil, nil, true)) != before {
+				changes++
+			}
+		}
+	}
+	return changes >= 2
 }
 
 // C12 entry point.
@@ -165,7 +268,7 @@ func C12(tier string) int {
 	if tier == "thorough" {
 		jobs = []job{{1, 4, 6}, {2, 3, 6}, {3, 2, 6}, {2, 4, 4}}
 	}
-	var hist, opens, loads int64
+	var hist, opens, loads, nontrivial int64
 	var mu sync.Mutex
 	sem := make(chan struct{}, runtime.NumCPU())
 	var wg sync.WaitGroup
@@ -184,6 +287,9 @@ func C12(tier string) int {
 					for _, ch := range b {
 						h := rmHist{N: j.n, Choice: ch, Pruning: pr}
 						r, o, l := runC12(h)
+						if c12nontrivial(ch) {
+							atomic.AddInt64(&nontrivial, 1)
+						}
 						atomic.AddInt64(&opens, o)
 						atomic.AddInt64(&loads, l)
 						if r != nil {
@@ -214,11 +320,11 @@ func C12(tier string) int {
 	run.Set("states", hist+opens+loads)
 	run.Set("transitions", opens+loads)
 	run.Set("traces_validated_against_impl", hist)
-	run.Set("distinct_nontrivial", hist)
+	run.Set("distinct_nontrivial", nontrivial)
 	run.Set("jobs", desc)
 	run.Set("reopens", opens)
 	run.Set("load_version_calls", loads)
-	run.Set("rule", "every write history (per version and per substore one of {nothing, k1=a, k1=b, delete k1, k2=a, k1=a+delete k2}) over N IAVL substores + 1 transient store, V versions, each of 7 pruning options; after every commit: reopen on a copy (LoadLatestVersion) and LoadVersion(u) for every u in 1..latest+1")
+	run.Set("rule", "every write history (per version and per substore one of {nothing, k1=a, k1=b, delete k1, k2=a, k1=a+delete k2}) over N IAVL substores + 1 transient store, V versions, each of 7 pruning options; after every commit: reopen on a copy (LoadLatestVersion) and LoadVersion(u) for every u in 1..latest+1; before every commit: every retained version loaded on a CopyStore of the live multistore while the writes are pending; at the end: failed loads on the live handle, and a reopen under every other pruning option with and without lazy loading followed by one more commit. Histories are distinct by construction; non-trivial = the content of some store differs between two versions (a write or delete that takes effect)")
 	run.Sample(rmHist{N: 2, Choice: [][]int{{1, 4}, {3, 0}, {2, 5}}, Pruning: [2]int64{0, 2}}.String())
 	run.Assume("MemDB stands in for the on-disk database", "retention rule: commit w releases version w-1-keepRecent unless it is a multiple of keepEvery (store/iavl documentation)", "LoadVersion(0) is not judged (0 is not a committed version)")
 	return run.Finish()
